@@ -421,7 +421,8 @@ where
         });
     }
     let mut results: [Option<Result<Vec<Vec<Replicated<Boolean, N>>>, String>>; 3] = [None, None, None];
-    let deadline = tokio::time::Instant::now() + Duration::from_secs(if fault.is_some() || icpt.tamper.is_some() { 20 } else { 180 });
+    let big = plan.m * N * plan.steps > 1_000_000;
+    let deadline = tokio::time::Instant::now() + Duration::from_secs(if big { 1800 } else if fault.is_some() || icpt.tamper.is_some() { 20 } else { 180 });
     let mut timed_out = false;
     loop {
         match tokio::time::timeout_at(deadline, futs.next()).await {
@@ -501,13 +502,21 @@ fn run_plan(plan: &Plan, fault: &Option<RecFault>, tamper: Option<Tamper>) -> E2
 }
 
 fn gen_plan(env: &Env, src: &mut Src<'_>) -> (Plan, &'static str) {
-    let n = src.pick(&[1usize, 3, 5, 8, 16, 20, 32, 64, 256]);
+    let mut n = src.pick(&[1usize, 3, 5, 8, 16, 20, 32, 64, 256]);
     let steps = src.urange(1, 3);
     // number of records chosen so that the number of bit multiplications per proof batch hits the
-    // block (256) and recursion (TARGET_PROOF_SIZE = 8192 in test builds; u/v length 32*8^j)
-    // boundaries
+    // block (256) and recursion boundaries. Recursion: every proof (first and compressed) has
+    // recursion factor 4 and the last level must leave room for the masks, so a batch of M
+    // multiplications (padded to a multiple of 256) needs one more proof whenever M exceeds
+    // 3*4^k; TARGET_PROOF_SIZE = 8192 in test builds bounds the batch in validate_record mode.
+    let sel = src.below(14);
+    if sel >= 12 {
+        n = src.pick(&[64usize, 256]);
+    }
     let per_rec = n * steps;
-    let target_bits = match src.below(12) {
+    let target_bits = match sel {
+        12 => 3 * 4usize.pow(src.range(4, 7) as u32),
+        13 => 3 * 4usize.pow(src.range(4, 7) as u32) + src.pick(&[1usize, 256, 257]),
         0 => 1,
         1 => 255,
         2 => 256,
@@ -606,6 +615,80 @@ pub fn e2e(env: &Env, src: &mut Src<'_>) -> CaseResult {
     Ok(CaseOk { nontrivial: true, digest: digest(&(plan.n, plan.m, plan.steps, format!("{:?}", plan.mode), fj.to_string())), labels, sample: cj })
 }
 
+/// Batch sizes (bit multiplications in ONE proof, width-256 vectors, single-shot validation) at
+/// and just above the last five recursion thresholds 3*4^k, k = 7..11. The last entry is the
+/// smallest batch whose proof uses all MAX_PROOF_RECURSION = 14 levels; production batches
+/// (TARGET_PROOF_SIZE = 50M) sit in that range, test builds (8192) never get there by themselves.
+const DEEP_TARGETS: [usize; 10] = [49_152, 49_408, 196_608, 196_864, 786_432, 786_688, 3_145_728, 3_145_984, 12_582_912, 12_583_168];
+
+fn proofs_for(mults: usize) -> usize {
+    // proofs in a batch of `mults` multiplications (multiple of 256): first proof, compressed
+    // proofs while more than 3 values are left, final masked proof (16,384 -> 9, 12,583,168 -> 14)
+    let mut len = mults;
+    let mut proofs = 1;
+    while len > 3 {
+        len = len.div_ceil(4);
+        proofs += 1;
+    }
+    proofs + 1
+}
+
+/// case i: target = DEEP_TARGETS[(i / 2) % 10]; even i = honest batch (must be accepted with the
+/// right product), odd i = one recorded intermediate with one flipped bit (must be rejected);
+/// i / 20 varies the location of the fault.
+pub fn deep(_env: &Env, src: &mut Src<'_>) -> CaseResult {
+    let i = src.raw() as usize;
+    let target = DEEP_TARGETS[(i / 2) % DEEP_TARGETS.len()];
+    let faulty = i % 2 == 1;
+    let var = i / (2 * DEEP_TARGETS.len());
+    let m = target / 256;
+    let plan = Plan { n: 256, m, steps: 1, mode: Mode::Single, seed: 0xD33F_0000 + i as u64 };
+    let depth = proofs_for(target);
+    let pj = json!({"n": 256, "m": m, "steps": 1, "mode": "Single", "bit_multiplications": target, "proofs": depth});
+    let labels = vec![format!("proofs:{depth}"), if faulty { "deep:fault".to_string() } else { "deep:honest".to_string() }];
+    if !faulty {
+        let honest = run_plan(&plan, &None, None);
+        if honest.timed_out {
+            return Ok(CaseOk::new(false, &0u8, serde_json::Value::Null).label("inconclusive:timeout"));
+        }
+        for (h, r) in honest.results.iter().enumerate() {
+            if let Err(e) = r {
+                return Err(violation("honest-rejected", format!("helper {h} did not accept an honest batch: {e}"), pj));
+            }
+        }
+        if !honest.product_ok {
+            return Err(violation("honest-wrong-product", "honest batch accepted but the product is wrong or inconsistently shared".to_string(), pj));
+        }
+        return Ok(CaseOk { nontrivial: true, digest: digest(&(i, "deep")), labels, sample: pj });
+    }
+    // location of the fault: a splitmix of the case index; the first variations pin the first
+    // and the last record (= last block of the batch)
+    let mut z = (i as u64).wrapping_add(0x9E37_79B9_7F4A_7C15).wrapping_mul(0xBF58_476D_1CE4_E5B9);
+    z ^= z >> 29;
+    z = z.wrapping_mul(0x94D0_49BB_1331_11EB);
+    z ^= z >> 32;
+    let record = match var {
+        0 => m - 1,
+        1 => 0,
+        _ => (z >> 20) as usize % m,
+    };
+    let f = RecFault { helper: (z % 3) as usize, record, step: 0, entry: ((z >> 4) % 7) as usize, bit: ((z >> 8) % 256) as usize };
+    let fj = json!({"kind": "recorded", "helper": f.helper, "record": f.record, "step": 0, "entry": ENTRY_NAMES[f.entry], "bit": f.bit});
+    let kind = format!("recorded:{}", ENTRY_NAMES[f.entry]);
+    let out = run_plan(&plan, &Some(f), None);
+    let cj = json!({"plan": pj, "fault": fj});
+    let rejected = (0..3).any(|h| out.results[h].as_ref().err().is_some_and(|e| is_dzkp_rejection(e)));
+    if !rejected {
+        let all_ok = out.results.iter().all(Result::is_ok);
+        if all_ok || !out.timed_out {
+            let what = if all_ok { "accepted by all three helpers".to_string() } else { format!("not rejected by the proof check: {:?}", out.results) };
+            return Err(violation(format!("altered-batch-accepted:deep:{kind}"), format!("batch of {target} multiplications ({depth} proofs) with one flipped {kind} bit was {what}"), cj));
+        }
+        return Ok(CaseOk::new(false, &0u8, serde_json::Value::Null).label("inconclusive:timeout-after-fault"));
+    }
+    Ok(CaseOk { nontrivial: true, digest: digest(&(i, "deep")), labels, sample: cj })
+}
+
 pub fn subs(_env: &Env) -> Vec<Sub> {
     vec![
         Sub::exhaustive("table_identity", 64, 64, table_identity,
@@ -615,7 +698,11 @@ pub fn subs(_env: &Env) -> Vec<Sub> {
         Sub::random("three_party_consistency", 300, 3000, 100_000, three_party_consistency,
             "dense generated three-party views of 256 multiplications (all-zero / all-one / random shares and masks): conversions equal the per-bit reference; prover indices equal the left verifier's u and the right verifier's v and every position sums to -1/2; after flipping one generated (helper, entry, position) bit some table relation fails at exactly that position; distinct by the flipped (helper, entry, position)"),
         Sub::random("e2e", 40, 3000, 60_000, e2e,
-            "TestWorld malicious contexts, Boolean vectors of width {1,3,5,8,16,20,32,64,256}, 1-3 steps per batch, record counts chosen so the bit-multiplication count hits 1, 255/256/257, 2^k, 2^k+-1, 32*8^j(+1), >8192 (recursion boundary, TARGET_PROOF_SIZE=8192 in test builds) or random; single-shot validate() or validate_record via validated_seq_join with 2^0..2^7 records per batch. Honest run must be accepted by all helpers with the right product; then one fault - a flipped bit of one transmitted z message (interceptor) or of one recorded intermediate (x/y/prss/z entry pushed with a flipped bit) - must make at least one helper return DZKPValidationFailed/ParallelDZKPValidationFailed; non-trivial = fault applied inside the populated part")
+            "TestWorld malicious contexts, Boolean vectors of width {1,3,5,8,16,20,32,64,256}, 1-3 steps per batch, record counts chosen so the bit-multiplication count hits 1, 255/256/257, 2^k, 2^k+-1, 32*8^j(+1), the recursion thresholds 3*4^k (+1, +256, +257) for k=4..6, >8192 (TARGET_PROOF_SIZE=8192 in test builds) or random; single-shot validate() or validate_record via validated_seq_join with 2^0..2^7 records per batch. Honest run must be accepted by all helpers with the right product; then one fault - a flipped bit of one transmitted z message (interceptor) or of one recorded intermediate (x/y/prss/z entry pushed with a flipped bit) - must make at least one helper return DZKPValidationFailed/ParallelDZKPValidationFailed; non-trivial = fault applied inside the populated part")
         .shrink_iters(12),
+        Sub::exhaustive("deep", 20, 100, deep,
+            "single-shot batches of width-256 multiplications at and one block above the recursion thresholds 3*4^k, k=7..11 (49,152 .. 12,583,168 bit multiplications; 10..14 proofs, 14 = MAX_PROOF_RECURSION, the depth production batches use): even cases are honest (accepted, right product), odd cases record one intermediate with one flipped bit (last record, first record, or a derived position) and must be rejected by some helper")
+        .block(1)
+        .streams(6),
     ]
 }
